@@ -536,6 +536,12 @@ class Walker(object):
                     nxt.extend(self.block(n.body, [s]))
                 states = nxt
             return states
+        if self.uses_stream(it):
+            # the iterable itself reads / writes the stream (a helper given
+            # the stream, a generator over reads): not a repetition of the
+            # body alone, and not followed here
+            raise self.err('the loop iterates over %s, which uses the stream'
+                           % ast.unparse(it)[:60], n)
         # run-time repetition: Kleene star over the body's alternatives
         body_st = st.fork()
         body_st.seq = []
